@@ -82,10 +82,17 @@ var kindName = []string{"peer", "addr", "subnet"}
 type rule struct {
 	kind  int
 	label string // printable, free of random bytes
-	key   string // identity of the rule in the model ("same rule" = same key)
+	key   string // identity of the rule in the model ("same rule" = same key); subnets: the CANONICAL network
+	spell string // subnets: the spelling handed to the gater (IPNet.String(), host bits and all)
 	pid   peer.ID
 	ip    net.IP // as handed to BlockAddr (4 or 16 bytes)
 	ipnet *net.IPNet
+}
+
+// canonNet is the network a (possibly non-canonical) IPNet denotes: host bits cleared, IPv4-mapped folded to
+// IPv4 — what net.IPNet.Contains decides membership by.
+func canonNet(n *net.IPNet) string {
+	return (&net.IPNet{IP: n.IP.Mask(n.Mask), Mask: n.Mask}).String()
 }
 
 func peerRule(name string, id peer.ID) *rule {
@@ -96,7 +103,20 @@ func addrRule(ip net.IP) *rule {
 }
 func subnetRule(cidr string) *rule {
 	n := mustCIDR(cidr)
-	return &rule{kind: kSubnet, label: "subnet:" + cidr, key: "s:" + n.String(), ipnet: n}
+	return &rule{kind: kSubnet, label: "subnet:" + cidr, key: "s:" + canonNet(n), spell: n.String(), ipnet: n}
+}
+
+// rawSubnetRule: a subnet the way an application may hand it over without going through ParseCIDR — host bits
+// set, 16-byte IPv4 with a 4-byte mask, IPv4-mapped with host bits. ipBytes: 4 or 16 for an IPv4 address.
+func rawSubnetRule(ip string, ones, bits, ipBytes int, form string) *rule {
+	x := net.ParseIP(ip)
+	if ipBytes == 4 {
+		x = x.To4()
+	} else {
+		x = x.To16()
+	}
+	n := &net.IPNet{IP: x, Mask: net.CIDRMask(ones, bits)}
+	return &rule{kind: kSubnet, label: fmt.Sprintf("subnet:%s[%s]", n.String(), form), key: "s:" + canonNet(n), spell: n.String(), ipnet: n}
 }
 
 type st int
@@ -114,10 +134,17 @@ type model struct {
 	state map[string]st
 	rules map[string]*rule // representative per key (for matching)
 	epoch map[string]int   // gater incarnation in which the state was last set
+	// Subnets: one network may be blocked under several spellings (10.0.1.64/26, 10.0.1.70/26, ::ffff:10.0.1.70/122 …).
+	// The statement does not say whether those are one rule or several, so: a Block under any spelling that
+	// returned nil enforces the network; an Unblock under spelling S lifts S, and whatever other spelling of the same
+	// network was blocked becomes "unknown" (an implementation may key rules by spelling — the network stays
+	// enforced — or by network — it does not). The network's state is derived: blocked if any spelling is,
+	// else unknown if any is, else unblocked.
+	spell map[string]map[string]st
 }
 
 func newModel() *model {
-	return &model{state: map[string]st{}, rules: map[string]*rule{}, epoch: map[string]int{}}
+	return &model{state: map[string]st{}, rules: map[string]*rule{}, epoch: map[string]int{}, spell: map[string]map[string]st{}}
 }
 
 func (m *model) keys() []string {
@@ -134,6 +161,41 @@ func (m *model) update(r *rule, block bool, acked bool, inc int) {
 	target := stUnblocked
 	if block {
 		target = stBlocked
+	}
+	if r.kind == kSubnet {
+		sp := m.spell[r.key]
+		if sp == nil {
+			sp = map[string]st{}
+			m.spell[r.key] = sp
+		}
+		m.rules[r.key] = r
+		switch {
+		case acked:
+			sp[r.spell] = target
+		case sp[r.spell] != target:
+			sp[r.spell] = stUnknown
+		}
+		if !block {
+			// an Unblock was invoked (it may have taken effect even if it was cut): other spellings of the network
+			for k, v := range sp {
+				if k != r.spell && v == stBlocked {
+					sp[k] = stUnknown
+				}
+			}
+		}
+		derived := stUnblocked
+		for _, v := range sp {
+			if v == stBlocked {
+				derived = stBlocked
+				break
+			}
+			if v == stUnknown {
+				derived = stUnknown
+			}
+		}
+		m.state[r.key] = derived
+		m.epoch[r.key] = inc
+		return
 	}
 	cur := m.state[r.key]
 	m.rules[r.key] = r
@@ -226,6 +288,7 @@ func formsWithIP(ip string) []string {
 			"/ip4/" + ip + "/udp/4001/webrtc-direct",
 			"/ip4/" + ip + "/tcp/443/tls/sni/x.test/ws",
 			"/ip4/" + ip,
+			"/ip4/" + ip + "/tcp/4001/p2p/" + relayIDText + "/p2p-circuit", // the IP component is the relay's
 		}
 	}
 	return []string{
@@ -235,6 +298,7 @@ func formsWithIP(ip string) []string {
 		"/ip6/" + ip + "/udp/4001/quic-v1/webtransport",
 		"/ip6/" + ip + "/tcp/4001/ws",
 		"/ip6/" + ip,
+		"/ip6/" + ip + "/udp/4001/quic-v1/p2p/" + relayIDText + "/p2p-circuit",
 	}
 }
 
@@ -248,6 +312,9 @@ var formsWithoutIP = []string{
 	"/memory/1234",
 	"/unix/tmp/x.sock",
 }
+
+// relayIDText: a peer id to spell relayed addresses with (DetKey(6); set in run()).
+var relayIDText string
 
 func ipOf(a ma.Multiaddr) net.IP {
 	ip, err := manet.ToIP(a)
